@@ -81,6 +81,9 @@ class SimultaneousScheduler(Scheduler):
 
         # the simultaneous scheduler first distributes all events to all agents ...
 
+        # events are addressed by agent id, which differs from the position in model.agents once agents have been deleted
+        agents_by_id = {agent.id: agent for agent in model.agents}
+
         while len(model.events) > 0:
 
             # Check if the event is of type DelayedEvent. If yes, we do not get a reply here and the event will be stored in self.delayed_events
@@ -88,10 +91,14 @@ class SimultaneousScheduler(Scheduler):
             event = self.handle_delayed_event(model.events.pop(), dt=model.dt)
 
             if event:
-                model.agents[event.receiver_id].receive_event(event)
+                receiver = agents_by_id.get(event.receiver_id)
 
-                if model.data_collector:
-                    model.data_collector.record_event(time, event)
+                # an event addressed to an agent that no longer exists is dropped
+                if receiver is not None:
+                    receiver.receive_event(event)
+
+                    if model.data_collector:
+                        model.data_collector.record_event(time, event)
 
         # give the model a chance to update dynamic properties etc.
 
